@@ -62,6 +62,13 @@ def listOf (p : P α) : P (List α) := do
 
 def val : P Val := opt nat
 
+/-- ports in (entity, attribute) order without repetitions (canonical output) -/
+def sortPorts (l : List Port) : List Port :=
+  let ins (x : Port) (acc : List Port) : List Port :=
+    if acc.contains x then acc
+    else (acc.filter fun y => y.1 < x.1 || (y.1 == x.1 && y.2 < x.2)) ++ [x] ++ (acc.filter fun y => !(y.1 < x.1 || (y.1 == x.1 && y.2 < x.2)))
+  l.foldl (fun acc x => ins x acc) []
+
 def ti : P TI := do
   let pre ← nat; let cutoff ← nat; let tiers ← listOf nat
   pure { pre := pre, cutoff := cutoff, tiers := tiers }
@@ -340,6 +347,16 @@ def handle (ss : Session) : P (Session × String) := do
     match deliver ss.cfg ss.st a with
     | none => pure (ss, "not-enabled")
     | some st => pure (report { ss with st := st })
+  | "aget" => do
+    -- the answer of an asynchronous get_data of `p` towards `target` in the current state (no state change):
+    -- requested ports, then what target's simulator replies to the forwarded request for the missing ones
+    let p ← nat; let target ← nat
+    let req ← listOf (do let e ← nat; let a ← nat; pure (e, a))
+    let direct ← listOf (do let e ← nat; let a ← nat; let v ← val; pure ((e, a), v))
+    let sPorts (l : List Port) : String := " ".intercalate ((sortPorts l).map fun (e, a) => s!"{e}.{a}")
+    let sData (d : OutData) : String :=
+      " ".intercalate ((sortPorts (d.map (·.1))).map fun k => s!"{k.1}.{k.2}={match (OutData.get? d k).getD none with | some v => toString v | none => "None"}")
+    pure (ss, s!"missing [{sPorts (asyncMissing ss.cfg ss.st p target req)}] answer [{sData (asyncAnswer ss.cfg ss.st p target req direct)}]")
   | "rs.run" => do
     -- World.run / shutdown control flow: n simulators, how the run phase ended
     let n ← nat; let kind ← tok
